@@ -186,14 +186,43 @@ def cache_keys(ctx, rule='A8'):
     ok = 'sorted(' in alltxt and 'get_excluded_indices' in alltxt
     ctx.ob(rule, fkey(gk, rule, 'excluded-sorted'), ok, gk.where,
            'excluded pairs enter the key in sorted order (the same set gives the same key)', '')
-    # Node.__repr__ covers every attribute
+    # which exclusion is meant is given by position: connector objects have no identity in their rendering
+    ex_defs = [v for _, v, _, _ in sl.origins(rets[-1].value, node) if v is not None and
+               ('excluded' in norm(v))]
+    ok = bool(ex_defs) and any('get_excluded_indices()' in norm(v) for v in ex_defs) and \
+        not any(isinstance(g, ast.comprehension) and norm(g.iter) == 'self.excluded'
+                for v in ex_defs for g in ast.walk(v))
+    ctx.ob(rule, fkey(gk, rule, 'excluded-by-position'), ok, gk.where,
+           'the excluded connections enter the key as (source index, target index) pairs from '
+           'get_excluded_indices() - the raw `excluded` entries may be connector objects, whose rendering does not '
+           'say which connector is meant', '; '.join(short(v, 60) for v in ex_defs) or 'missing')
+    # the connectors enter through a rendering (repr / str) that covers every attribute
     nd = ctx.prog.cls(f'{MATRIX}:Node')
     attrs = sorted(nd.instance_attrs)
-    rp = nd.methods.get('__repr__')
-    t = FnText(ctx, rp) if rp else ''
-    for a in attrs:
-        ctx.ob(rule, fkey(rp, rule, f'node-repr-covers:{a}'), f'self.{a}' in t, rp.where,
-               f'the connector description embedded in the key covers attribute `{a}`', '')
+    used = set()
+    for side in ('src', 'tgt'):
+        comps = [c for _, v, _, _ in sl.origins(rets[-1].value, node) if v is not None for c in ast.walk(v)
+                 if isinstance(c, (ast.ListComp, ast.GeneratorExp)) and norm(c.generators[0].iter) == f'self.{side}']
+        if not comps:
+            raise AnalysisError(f'get_cache_key: rendering of self.{side} not found')
+        for c in comps:
+            var = norm(c.generators[0].target)
+            e = c.elt
+            if isinstance(e, ast.Call) and call_name(e) in ('repr', 'str') and e.args and norm(e.args[0]) == var:
+                used.add((side, '__repr__' if call_name(e) == 'repr' else '__str__'))
+            elif isinstance(e, ast.JoinedStr) and len(e.values) == 1 and isinstance(e.values[0], ast.FormattedValue) \
+                    and norm(e.values[0].value) == var:
+                used.add((side, '__repr__' if e.values[0].conversion == 114 else '__str__'))
+            else:
+                raise AnalysisError(f'get_cache_key: unrecognised rendering of a connector: {short(e)}')
+    for side, meth in sorted(used):
+        rp = nd.methods.get(meth) or nd.methods.get('__repr__')
+        t = FnText(ctx, rp) if rp else ''
+        for a in attrs:
+            ctx.ob(rule, fkey(rp, rule, f'node-rendering-covers:{side}:{a}'), f'self.{a}' in t, rp.where,
+                   f'the rendering of the {side} connectors embedded in the key ({nd.name}.{rp.name}) covers '
+                   f'attribute `{a}`', '' if f'self.{a}' in t else f'{nd.name}.{rp.name} does not mention self.{a}: '
+                   f'two settings that differ only in it share a cache entry')
     # NodeExistence.__hash__ covers every public attribute
     ne = ctx.prog.cls(f'{MATRIX}:NodeExistence')
     pub = sorted(a for a in ne.instance_attrs if not a.startswith('_'))
@@ -345,6 +374,10 @@ def check(ctx):
 from ..selftest import V  # noqa: E402
 
 VARIANTS = [
+    V('key-renders-targets-with-str', 'optimization/assign_enc/matrix.py',
+      [("tgt_cache_key = ';'.join([repr(t) for t in self.tgt])", "tgt_cache_key = ';'.join([str(t) for t in self.tgt])")], key='node-rendering-covers:tgt'),
+    V('key-renders-excluded-objects', 'optimization/assign_enc/matrix.py',
+      [("';'.join([f'{tup[0]:d},{tup[1]:d}' for tup in sorted([ex for ex in self.get_excluded_indices()])])", "';'.join(sorted([f'{ex_src!r},{ex_tgt!r}' for ex_src, ex_tgt in self.excluded]))")], key='excluded-by-position'),
     V('eager-reduction-over-empty-table', 'optimization/assign_enc/encoding.py',
       [("            if des_vectors.shape[1] == 0:\n                design_vars_list.append([])\n                continue\n", "")], key='eager-reduction-nonempty-dim1'),
     V('view-written', 'optimization/assign_enc/selector.py',
@@ -365,7 +398,7 @@ VARIANTS = [
       key='key-reads-field:existence'),
     V('node-repr-drops-rep', 'optimization/assign_enc/matrix.py',
       [("        return f'{self.__class__.__name__}(conns={self.conns!r}, min_conns={self.min_conns}, rep={self.rep})'", "        return f'{self.__class__.__name__}(conns={self.conns!r}, min_conns={self.min_conns})'")],
-      key='node-repr-covers:rep'),
+      key='node-rendering-covers:src:rep'),
     V('existence-hash-drops-max-override', 'optimization/assign_enc/matrix.py',
       [("                self.max_src_conn_override, self.max_tgt_conn_override,\n            ))", "            ))")], key='existence-hash-covers:max_src_conn_override'),
     V('key-builtin-hash', 'optimization/assign_enc/matrix.py',
